@@ -8,7 +8,7 @@
    writes reported as written. *)
 From Coq Require Import List ZArith Lia Bool.
 From RecordUpdate Require Import RecordSet.
-From Sim Require Import Map Variant Kernel Queue Net Pcap SimState Sim HttpParse Apps SockProofs RxProofs TxProofs HttpServerProofs.
+From Sim Require Import Map Variant Kernel Queue Net Pcap SimState Sim HttpParse Apps SockProofs RxProofs TxProofs HttpServerProofs SocksProofs.
 Import ListNotations.
 Import RecordSetNotations.
 Local Open Scope Z_scope.
@@ -84,6 +84,21 @@ Proof.
   split.
   - rewrite (proxy_forwarding_independent_of_segmentation v), reads_concat_to_got. reflexivity.
   - exact (reader_gets_an_exact_prefix sent evs W F).
+Qed.
+
+(* C17 on the concrete receiver: every block a relay step is handed is written to the
+   other side as it is, and the blocks concatenate to a prefix of the sender's stream *)
+Theorem socks_relay_forwards_a_prefix_of_the_stream :
+  (forall data, In data (rx_reads evs rx_init) -> forall cx srv c w n d,
+     socks_conn_step cx srv c 13 (EC_OK :: n :: n :: d :: data) w
+       = start_write_all cx (so_server srv c) data 65536 (hid_so srv c 14) w /\
+     socks_conn_step cx srv c 15 (EC_OK :: n :: n :: d :: data) w
+       = start_write_all cx (so_client srv c) data 65536 (hid_so srv c 16) w)
+  /\ exists rest, cstream sent = concat (rx_reads evs rx_init) ++ rest.
+Proof.
+  split.
+  - intros data _ cx srv c w n d. apply relay_steps_are_verbatim.
+  - rewrite reads_concat_to_got. exact (reader_gets_an_exact_prefix sent evs W F).
 Qed.
 End Over.
 
